@@ -31,7 +31,7 @@ for name in names:
     p = subprocess.run(["/venv/bin/python", os.path.join(sd, "demo.py")], cwd=wt, env=env, capture_output=True, text=True)
     r["demo_patched"] = p.returncode
     r["checks"] = {}
-    for chk in RELATED[pid]:
+    for chk in ([pid] if os.environ.get("ONLYOWN") else RELATED[pid]):
         e = dict(os.environ, JASM_REPO=wt, VERIF_TIER="quick")
         vd = os.environ.get("VERIF_DIR", "/verif")
         o = subprocess.run([vd + "/check", chk], cwd=vd, env=e, capture_output=True, text=True)
